@@ -56,6 +56,8 @@ fn main() {
         "C18" => checks::c18::run(&tier, only.as_ref()),
         "C19" => checks::c19::run(&tier, only.as_ref()),
         "C20" => checks::c20::run(&tier, only.as_ref()),
+        "C12" => checks::c12::run(&tier, only.as_ref()),
+        "C12-WORKER" => checks::c12::worker_main(&args[2..]),
         "C08" => checks::c08::run(&tier, only.as_ref()),
         "C03" => checks::c03::run(&tier, only.as_ref()),
         _ => {
